@@ -100,7 +100,7 @@ type trafficMsg struct {
 // agentSpec is the plain-data description of a device.
 type agentSpec struct {
 	NPorts      int `json:"nports"`
-	BufSize     int `json:"buf"`          // device port buffer capacity (both directions)
+	BufSize     int `json:"buf"`           // device port buffer capacity (both directions)
 	SendPerTick int `json:"send_per_tick"` // messages the device may hand to its ports per tick
 	RecvPerTick int `json:"recv_per_tick"` // messages retrieved per port per draining tick
 	DrainPeriod int `json:"drain_period"`  // the device drains on every DrainPeriod-th tick (1 = always)
